@@ -298,6 +298,51 @@ def network_histories(ck, tier, seed):
         ck.violation(key, "%s [minimal history: %s; %s case %d]" % (d3[1] if d3 else div[1], " ; ".join(seq), kind, i), wit)
 
 
+def memcheck_sample(ck, seed, n=48):
+    """valgrind memcheck over a sample of histories (plain build): ASan does not see reads of uninitialised
+    members, which is exactly what a history-dependent answer can be made of (e.g. a member set only by a
+    state-changing call that the history did not make)."""
+    import os, shutil
+    if not shutil.which("valgrind"):
+        ck.inconc("valgrind not available")
+        return
+    runner.build("plain", targets=["adjdrv"])
+    exe = runner.binpath("plain", "adjdrv")
+    jobs = []
+    for i, rng, P in problems(seed, n, "thorough"):
+        ref = lsq.Reference(P)
+        if not ref.ok or ref.kappa > 1e4:
+            continue
+        nn, m = ref.n, ref.m
+        idx_pool = [int(x) for x in rng.choice(nn, min(5, nn), replace=False) + 1]
+        obs_pool = [int(x) for x in rng.choice(m, min(5, m), replace=False) + 1]
+        for kind in ("base", "adj"):
+            alg = lsq.ALGS[(i + (kind == "adj")) % 4]
+            cmds = gen_history(rng, P, ref, kind, 8, idx_pool, obs_pool)
+            jobs.append((i, kind, alg, P, cmds))
+
+    def work(job):
+        i, kind, alg, P, cmds = job
+        script = "\n".join(lsq.to_script(P) + ["NEW %s %s" % (kind, alg)] + cmds) + "\n"
+        rr = runner.run(["valgrind", "--quiet", "--error-exitcode=97", "--track-origins=no", exe], stdin=script, timeout=900)
+        return job, rr
+
+    for (i, kind, alg, P, cmds), rr in runner.pmap(work, jobs):
+        if rr.timeout:
+            ck.inconc("memcheck timeout")
+            continue
+        ck.case(("memcheck", kind, alg))
+        ck.count("memcheck histories")
+        if rr.rc == 97 or "uninitialised" in (rr.err or "") or "Invalid read" in (rr.err or "") or "Invalid write" in (rr.err or ""):
+            import re as _re
+            m = _re.search(r"==\d+== (Conditional jump|Use of uninitialised|Invalid read|Invalid write)[^\n]*", rr.err or "")
+            frames = _re.findall(r"==\d+==\s+(?:at|by) 0x[0-9A-F]+: ([\w:~<>, ]+?)(?:\(|\s\()", rr.err or "")
+            frames = [f for f in frames if "GNU_gama" in f][:2]
+            key = "memcheck:%s:%s|%s" % (kind, (m.group(1) if m else "error").replace(" ", "-"), ">".join(f.split("<")[0] for f in frames))
+            ck.violation(key, "valgrind memcheck: %s in %s" % (m.group(0)[:120] if m else "error", frames),
+                         dict(seed=seed, index=i, kind=kind, alg=alg, history=cmds, meta=P["meta"], stderr=(rr.err or "")[:1500]))
+
+
 def run(tier, seed, only=None):
     runner.build("san", targets=["adjdrv"])
     ck = Check("C04", tier, seed,
@@ -402,6 +447,8 @@ def run(tier, seed, only=None):
             msg, " ; ".join(seq), i, ref.m, ref.n, ref.defect), wit)
     if only is None:
         network_histories(ck, tier, seed)
+    if only is None and tier == "thorough":
+        memcheck_sample(ck, seed)
     ck.assumptions += ["the oracle is gama's own code on a fresh object (the property is about history independence, "
                        "not about correctness of the value, which C01/C03 decide)",
                        "a fresh Adj is asked x() before q_xx/q_bb/defect (documented usage)"]
